@@ -380,10 +380,12 @@ def mesher_frames(ctx):
     problems = []
     sinks = 0
 
+    offs = {off} if off is not None else set()          # the offset and its aliases (`origin = r0.squeeze()`)
+
     def is_off(e):
-        # r0, r0.squeeze(), r0[0] ...: an expression over the offset name alone
+        # r0, r0.squeeze(), r0[0] ...: an expression over the offset name (or an alias of it) alone
         names = {x.id for x in ast.walk(e) if isinstance(x, ast.Name)}
-        return off is not None and isinstance(e, (ast.Name, ast.Call, ast.Attribute, ast.Subscript)) and names == {off}
+        return off is not None and isinstance(e, (ast.Name, ast.Call, ast.Attribute, ast.Subscript)) and bool(names) and names <= offs
 
     def fr(e, loc_env):
         """frame of an expression: 'U', 'C' or None (not a coordinate)"""
@@ -433,13 +435,16 @@ def mesher_frames(ctx):
         nonlocal sinks
         for st in stmts:
             if isinstance(st, ast.Assign):
+                if is_off(st.value) and len(st.targets) == 1 and isinstance(st.targets[0], ast.Name):
+                    offs.add(st.targets[0].id)
+                    continue
                 v = fr(st.value, env)
                 # mesh = triangle.build(mesh_info=...): its points are in the frame of the points it was given
                 if isinstance(st.value, ast.Call) and norm(st.value.func).endswith(".build"):
                     v = env.get("@meshinfo")
                 for t in st.targets:
                     if isinstance(t, ast.Name):
-                        if t.id == off:
+                        if t.id in offs:
                             continue
                         if v:
                             env[t.id] = v
